@@ -2,7 +2,9 @@ package props
 
 import (
 	"fmt"
+	"github.com/robfig/soy/soyjs"
 	"strings"
+	"verif/jsx"
 
 	"verif/fw"
 	"verif/ref"
@@ -217,6 +219,19 @@ func init() {
 					}
 					add(b.String(), c15Left[ctx.Rng.Intn(len(c15Left))], c15Right[ctx.Rng.Intn(len(c15Right))])
 				}
+				// two long runs (1-4 KB) of multi-byte characters at every alignment, with line breaks to join
+				for k := 0; k < 2; k++ {
+					var b strings.Builder
+					b.WriteString(strings.Repeat("a", ctx.Rng.Intn(4)))
+					unit := []string{"中", "😀", "é", "日本語 ", "x\u00e0", "ab\n  cd", "<\n>"}[ctx.Rng.Intn(7)]
+					for b.Len() < 1000+ctx.Rng.Intn(3000) {
+						b.WriteString(unit)
+						if ctx.Rng.P(1, 40) {
+							b.WriteString(alpha[ctx.Rng.Intn(len(alpha))])
+						}
+					}
+					add(b.String(), c15Left[ctx.Rng.Intn(len(c15Left))], c15Right[ctx.Rng.Intn(len(c15Right))])
+				}
 			}
 			if commentsOnly {
 				for k, c := range c15Comments {
@@ -262,6 +277,35 @@ func init() {
 				if err != nil || got != c.want {
 					return fw.Result{Verdict: fw.Violated, Key: "rawtext-mismatch", Case: map[string]string{"text": c.text, "left": c.l, "right": c.r, "want": c.want, "got": got},
 						Msg: fmt.Sprintf("text run %q between %s and %s: want %q, got %q (err %v)", c.text, c.l, c.r, c.want, got, err)}
+				}
+			}
+			// the same templates through the generated JavaScript (every fourth batch and every seeded batch): text is
+			// normalised once, by the parser, and each backend has to hand it on unchanged
+			if e, eerr := engine(); eerr == nil && (i%4 == 0 || i > nEx+nPf) {
+				reg, rerr := compileRegistry([]srcFile{file}, nil)
+				if rerr != nil {
+					return fw.Result{Verdict: fw.Inconclusive, Key: "second-compile-failed", Msg: errText(rerr)}
+				}
+				js, jerr := genJS(reg, soyjs.Options{})
+				if jerr != nil {
+					return fw.Result{Verdict: fw.Violated, Key: "js-generation-fails", Case: file, Msg: errText(jerr)}
+				}
+				if _, lerr := loadBundleJS(e, reg, js); lerr != nil {
+					if _, isEng := lerr.(jsx.EngineError); isEng {
+						return fw.Result{Verdict: fw.Inconclusive, Key: "engine-failure", Msg: lerr.Error()}
+					}
+					return fw.Result{Verdict: fw.Violated, Key: "js-does-not-load", Case: file, Msg: fw.Trim(lerr.Error(), 300)}
+				}
+				for _, c := range cases {
+					got, typ, jerr := e.Eval("t." + c.name + "({}, null, {x: 'X'})")
+					ctx.Obs("js_outputs_compared", 1)
+					if jerr != nil || typ != "string" || got != c.want {
+						if _, isEng := jerr.(jsx.EngineError); isEng {
+							return fw.Result{Verdict: fw.Inconclusive, Key: "engine-failure", Msg: jerr.Error()}
+						}
+						return fw.Result{Verdict: fw.Violated, Key: "rawtext-mismatch:js", Case: map[string]string{"text": c.text, "left": c.l, "right": c.r, "want": c.want, "got": got},
+							Msg: fmt.Sprintf("generated JavaScript, text run %q between %s and %s: want %q, got %q (err %v)", fw.Trim(c.text, 200), c.l, c.r, fw.Trim(c.want, 200), fw.Trim(got, 200), jerr)}
+					}
 				}
 			}
 			if i%97 == 0 && len(cases) > 0 {
